@@ -9,6 +9,16 @@ C['C14']=dict(level='model_checking',
   note='simrt models Go mutex/channel/select/timer semantics; scheduling points at synchronisation operations only; virtual time (timely mode); vinstr rewrites a scratch copy of /repo mechanically.',
   technique='stateless schedule exploration (controlled scheduler, iterative preemption bounding) of the implementation',
   design_ref='4/C14')
+C['C12']=dict(level='model_checking',
+  text='Exhaustive preemption-bounded exploration (bound 2 quick / 3 thorough) of 1-3 concurrent writers (1-2 writes each) against every closing event (local close with/without reason, peer close frame, abrupt EOF, failing transport write, link cut), with and without a stalled transport write (full outgoing queue), on the real ws.WebsocketConnection and its two pumps over a fake socket; oracle: every write returns, no panic, error once closed, and the frames the peer received form a gap-free, duplicate-free prefix consistent with the call/return order of the accepted writes.',
+  note='fakews models the gorilla/websocket behaviour ship-go relies on (control frames inside ReadMessage, permanent read errors, ErrCloseSent, concurrent-writer panic); simrt scheduling points at sync/channel/socket operations; happens-before state caching.',
+  technique='stateless schedule exploration (controlled scheduler, iterative preemption bounding) of the implementation',
+  design_ref='4/C12')
+C['C13']=dict(level='fault_enumeration',
+  text='A transport fault is injected at the k-th read and the k-th write for every k of a session with traffic in both directions (data writes and the 50 s ping included), peer close frames with six codes, abrupt EOF, local close with/without reason and an idle session, each explored under all schedules within the preemption bound (1 quick / 2 thorough) on the real ws.WebsocketConnection up to a 130 s virtual horizon; oracle: error reported (non-nil) and closed-query (true, non-nil) for transport loss, no error report for a deliberate local close, nothing delivered after the end, both pumps terminated, socket Close() called.',
+  note='fault model: a failing read/write cuts the link in both directions; read/write deadlines on virtual time; fakews as for C12.',
+  technique='fault enumeration x stateless schedule exploration of the implementation under a controlled scheduler',
+  design_ref='4/C13')
 na={}
 checks=[]
 for i in ids:
